@@ -320,7 +320,7 @@ pub fn scope_parent_progs() -> Vec<Prog> {
     let mut out = vec![];
     for decoy in [false, true] {
         for parent in ["K = 1", "K:", "g2:"] {
-            for local in [".v:", ".v = 7", ".v = F"] {
+            for local in [".v:", ".v = 7", ".v = F", ".v = $"] {
                 for uses in [vec!["ld .v"], vec!["#d8 .v"], vec!["ld .v", "#d8 .v"], vec!["#d8 .v", "ld .v"]] {
                     for pad in 0..=2 {
                         for pad2 in [0usize, 3] {
@@ -339,6 +339,7 @@ pub fn scope_parent_progs() -> Vec<Prog> {
                             match local {
                                 ".v:" => items.push(Item::Label(".v".into())),
                                 ".v = 7" => items.push(Item::Const(".v".into(), "7".into())),
+                                ".v = $" => items.push(Item::Const(".v".into(), "$".into())),
                                 _ => items.push(Item::Const(".v".into(), "F".into())),
                             }
                             for u in &uses {
